@@ -30,7 +30,7 @@ def richardson_params(I, obj):
     r = obj.attrs.get('richardson')
     if r is None:
         raise AnalysisError('no Richardson object set by the call')
-    return {k: r.attrs.get(k) for k in ('step_ratio', 'step', 'order', 'num_terms')}
+    return {k: I.getattr(r, k) for k in ('step_ratio', 'step', 'order', 'num_terms')}       # public parameters (may be properties)
 
 
 def run_one(rep, P, cls, method, n, order, gen_kind, rule_id='R-E2E', dim=None, extra_k=None, complex_valued=False):
